@@ -139,6 +139,7 @@ pub fn check_outcome(set: &[(usize, J)], out: &Outcome) -> Result<bool, Verdict>
                 what: format!("unification panicked: {p}"),
             })
         }
+        Outcome::Skipped => return Ok(false),
         Outcome::OverBudget => {
             return Err(Verdict {
                 key: format!("non-terminating:{}", kind_of(set)),
